@@ -226,8 +226,79 @@ def real_file_params():
         return None
 
 
+def labels_work(P, item):
+    """Header.from_pfits (real bytecode over stand-in FITS headers with symbolic channel frequencies): the labels describe
+    the data *as delivered* - read_subints returns the channels in descending order whatever the file's order, so the
+    first label is the highest frequency and the spacing is negative"""
+    from ..core import rebind, wrap
+    from sigpyproc import header
+    import attrs
+    nch = 4
+
+    def run(ctx):
+        f0, df = z3.Real("f_first"), z3.Real("f_step")
+        ctx.assume(z3.And(df != 0, f0 > 0, f0 + (nch - 1) * df > 0))
+        arr = [SReal(f0 + k * df) for k in range(nch)]
+
+        class Freqs:
+            array = arr
+            fch1 = arr[0]
+            foff = arr[1] - arr[0]
+
+        class Sub:
+            def __init__(self, fn):
+                pass
+            nchans, nbits, tsamp, nsamples, freqs = nch, 8, 0.001, 4096, Freqs
+
+        class Back:
+            name = "BK"
+
+        class Prim:
+            def __init__(self, fn):
+                pass
+            tstart = type("T", (), {"mjd": 58000.0})
+            coord, telescope, backend, source = "COORD", "Parkes", Back, "SRC"
+
+        class PF:
+            PrimaryHdr, SubintHdr = Prim, Sub
+
+        class AttrsStub:
+            @staticmethod
+            def fields_dict(cls):
+                return attrs.fields_dict(header.Header)
+        got = rebind(header.Header.__dict__["from_pfits"].__func__, pfits=PF, attrs=AttrsStub)(lambda **kw: kw, "x.sf")
+        return got, f0, df
+
+    def on_path(ctx, o):
+        Ctx.cur = ctx
+        P.reached += 1
+        got, f0, df = o
+        hi = z3.If(df > 0, f0 + (nch - 1) * df, f0)
+        viol = [("fch1 labels the first delivered channel (the highest frequency)", wrap(got["fch1"]).e != hi),
+                ("foff is the spacing of the delivered channels (negative)", wrap(got["foff"]).e != z3.If(df > 0, -df, df)),
+                ("nchans / nbits / tsamp / nsamples / source pass through", z3.BoolVal((got.get("nchans"), got.get("nbits"), got.get("tsamp"), got.get("nsamples"), got.get("source"), got.get("telescope"), got.get("backend")) != (nch, 8, 0.001, 4096, "SRC", "Parkes", "BK")))]
+        for n_, c in viol:
+            if ctx.check(c) == z3.unsat:
+                P.obligation(f"Header.from_pfits/{n_}", "holds", symbolic=True)
+            else:
+                m = ctx.solver.model()
+                asc = z3.is_true(m.eval(df > 0, model_completion=True))
+                params = dict(kind="labels", ascending=bool(asc))
+                src = ("import sys, json\nfrom symx.concrete import c18\n"
+                       f"sys.exit(c18.main(json.loads({json.dumps(json.dumps(params))})))\n")
+                P.violation(f"from_pfits-{n_[:30]}".replace(" ", "_").replace("(", "").replace(")", "").replace("/", "-"), f"Header.from_pfits: {n_}", src, model=params)
+                break
+        Ctx.cur = None
+    try:
+        explore(run, bound=2, on_path=on_path, stats=P.stats, deadline_s=120)
+    except Inconclusive as e:
+        P.inconclusive_(f"from_pfits labels: {e}")
+
+
 def work(P, item):
     kind, foff, none, bound = item
+    if kind == "labels":
+        return labels_work(P, item)
     if kind == "values":
         return values_work(P, item)
     h = block_harness(foff) if kind == "block" else plan_harness(foff, none)
@@ -409,7 +480,9 @@ def run(R):
     items = [("block", -1.0, False, nb), ("block", 1.0, False, nb), ("plan", -1.0, False, nb), ("plan", -1.0, True, nb)]
     if not quick:
         items.append(("plan", 1.0, False, nb))
-    items += [("values", 2, "Coherence", 0), ("values", 2, "Stokes", 0)]
+    items += [("values", 2, "Coherence", 0), ("values", 2, "Stokes", 0), ("labels", 0, False, 0)]
+    from sigpyproc import header as _header
+    R.encode(_header.Header.__dict__["from_pfits"].__func__)
     parts = R.pmap(work, items)
     R.vacuity_witness("c18", sum(p.reached for p in parts) > 0)
     tw = [0]
